@@ -1,6 +1,7 @@
 package astits
 
 import (
+	"bytes"
 	"sort"
 )
 
@@ -23,6 +24,13 @@ func newPacketAccumulator(pid uint16, programMap *programMap) *packetAccumulator
 func (b *packetAccumulator) add(p *Packet) (ps []*Packet) {
 	mps := b.q
 
+	// Throw away packet if it's the same as the previous one
+	// This has to be checked first since a duplicate doesn't increment the continuity counter and would otherwise be
+	// mistaken for a discontinuity
+	if isSameAsPrevious(mps, p) {
+		return
+	}
+
 	// Empty buffer if we detect a discontinuity
 	if hasDiscontinuity(mps, p) {
 		// Reset current slice or make new
@@ -31,11 +39,6 @@ func (b *packetAccumulator) add(p *Packet) (ps []*Packet) {
 		} else {
 			mps = make([]*Packet, 0, 10)
 		}
-	}
-
-	// Throw away packet if it's the same as the previous one
-	if isSameAsPrevious(mps, p) {
-		return
 	}
 
 	// Flush buffer if new payload starts here
@@ -126,5 +129,7 @@ func hasDiscontinuity(ps []*Packet, p *Packet) bool {
 // isSameAsPrevious checks whether a packet is the same as the last packet of a set of packets
 func isSameAsPrevious(ps []*Packet, p *Packet) bool {
 	l := len(ps)
-	return l > 0 && p.Header.HasPayload && p.Header.ContinuityCounter == ps[l-1].Header.ContinuityCounter
+	// A duplicate carries the same payload: the same continuity counter with another payload means that 16 packets,
+	// or a multiple, have been lost
+	return l > 0 && p.Header.HasPayload && p.Header.ContinuityCounter == ps[l-1].Header.ContinuityCounter && bytes.Equal(p.Payload, ps[l-1].Payload)
 }
